@@ -73,6 +73,11 @@ def main():
     for kf, fs in sorted(kf_seen.items()):
         print("KNOWN-FINDING: property=%s %s %s (%d observed steps)"
               % (pid, kf, known[(kf, pid)]["what"], len(fs)))
+    if os.environ.get("VERIF_DUMPKF"):
+        with open(os.environ["VERIF_DUMPKF"], "w") as fh:
+            for kf, fs in sorted(kf_seen.items()):
+                for f in fs:
+                    fh.write(json.dumps({"kf": kf, "clause": f["clause"], "hist": f["hist"], "init": f.get("init")}) + "\n")
     if drift:
         print("DRIFT property=%s %d steps where the model and the code disagree (first: %s)"
               % (pid, len(drift), json.dumps({k: drift[0][k] for k in ("clause", "hist")})[:400]))
